@@ -25,6 +25,7 @@ use serde_json::{json, Value};
 const SUBJECT: &str = "c";
 const KIDS: &[&str] = &["k1", "k2", "k3"];
 const CLASSES: &[&str] = &["nocert", "one", "two", "shrunk", "roll"];
+const STALE: &str = "after-comment-change-in-same-delta";
 
 //------------ Pfx: own prefix arithmetic ------------------------------------
 
@@ -323,12 +324,22 @@ fn make_csr_pool() -> Vec<Csr> {
 
 //------------ Model ---------------------------------------------------------
 
+/// A resource set compared by content, not by representation.
+#[derive(Clone, Debug)]
+struct Res(ResourceSet);
+
+impl PartialEq for Res {
+    fn eq(&self, o: &Res) -> bool {
+        self.0.contains(&o.0) && o.0.contains(&self.0)
+    }
+}
+
 #[derive(Clone, Debug, Default, PartialEq)]
 struct Model {
     roas: BTreeMap<RoaKey, Option<String>>,
     aspas: BTreeMap<u32, Vec<u32>>,
     bgpsec: BTreeSet<(u32, String)>,
-    children: BTreeMap<String, ResourceSet>,
+    children: BTreeMap<String, Res>,
 }
 
 impl Model {
@@ -344,7 +355,7 @@ impl Model {
             "bgpsec": self.bgpsec.iter().map(|(a, k)| format!("{a}-{k}"))
                 .collect::<Vec<_>>(),
             "children": self.children.iter()
-                .map(|(c, r)| format!("{c}: {r}")).collect::<Vec<_>>(),
+                .map(|(c, r)| format!("{c}: {}", r.0)).collect::<Vec<_>>(),
         })
     }
 }
@@ -391,7 +402,7 @@ fn observe(w: &World) -> Option<View> {
     for child in &info.children {
         let res = w.krill.ca_manager().ca_show_child(&h(SUBJECT), child)
             .ok()?.entitled_resources;
-        model.children.insert(child.to_string(), res);
+        model.children.insert(child.to_string(), Res(res));
     }
     let per_class = info.resource_classes.values().filter_map(|rc| {
         rc.keys.current_key().map(|k| k.incoming_cert.resources.clone())
@@ -418,6 +429,7 @@ struct Expect {
 
 struct Ctx<'a> {
     held: &'a Held,
+    per_class: &'a [Held],
     csrs: &'a [Csr],
 }
 
@@ -443,10 +455,16 @@ fn expect(m: &Model, cx: &Ctx, req: &Req) -> Expect {
             }
             let removed: BTreeSet<RoaKey> = remove.iter().map(|r| r.key())
                 .collect();
+            // authorisations whose comment an earlier entry of this delta
+            // changed
+            let mut recommented: BTreeSet<RoaKey> = BTreeSet::new();
             for a in add {
                 let key = a.key();
                 let p = key.0;
                 let mut bad = false;
+                if recommented.contains(&key) {
+                    e.tags.insert(STALE);
+                }
                 if let Some(ml) = a.ml {
                     if ml < p.len || ml > p.bits() {
                         e.clauses.insert("invalid-maxlen");
@@ -468,11 +486,19 @@ fn expect(m: &Model, cx: &Ctx, req: &Req) -> Expect {
                         if !bad {
                             e.next.roas.insert(key, a.comment.clone());
                             e.tags.insert("comment-update");
+                            recommented.insert(key);
                         }
                     }
                     None => {
                         if !bad {
                             e.next.roas.insert(key, a.comment.clone());
+                            let n_classes = cx.per_class.iter()
+                                .filter(|c| c.has_pfx(&p)).count();
+                            if n_classes == 0 {
+                                e.tags.insert("add-spanning-two-classes");
+                            } else if n_classes > 1 {
+                                e.tags.insert("add-held-by-two-classes");
+                            }
                             e.tags.insert(
                                 if removed.contains(&key) { "readd" }
                                 else if a.asn == 0 { "add-as0" }
@@ -598,7 +624,7 @@ fn expect(m: &Model, cx: &Ctx, req: &Req) -> Expect {
                 e.judge_verdict = false;
             }
             if e.clauses.is_empty() {
-                let res = child_resources(asns, pfx);
+                let res = Res(child_resources(asns, pfx));
                 if m.children.get(child) == Some(&res) {
                     e.tags.insert("noop");
                 } else if is_add { e.tags.insert("add"); }
@@ -874,7 +900,7 @@ fn build(
     // The state must be the one intended, judged from the certificates the
     // CA received.
     let view = observe(&w).ok_or("subject CA not observable")?;
-    if view.resources != held.resource_set() {
+    if Res(view.resources.clone()) != Res(held.resource_set()) {
         return Err(format!(
             "class {class}/{variant}: CA holds '{}', intended '{}'",
             view.resources, held.resource_set()
@@ -1260,7 +1286,7 @@ impl Gen<'_> {
                 let child = self.rng.pick(&present).clone();
                 if self.rng.chance(8, 100) {
                     // exactly what the child has already
-                    let cur = &m.children[&child];
+                    let cur = &m.children[&child].0;
                     if let Some(req) = same_resources(&child, cur) {
                         return req
                     }
@@ -1313,7 +1339,143 @@ fn same_resources(child: &str, cur: &ResourceSet) -> Option<Req> {
         }
     }
     let req = Req::ChildUpdate { child: child.into(), asns: asns.clone(), pfx: pfx.clone() };
-    if &child_resources(&asns, &pfx) == cur { Some(req) } else { None }
+    if Res(child_resources(&asns, &pfx)) == Res(cur.clone()) { Some(req) }
+    else { None }
+}
+
+//------------ Boundary script -----------------------------------------------
+
+/// Fixed requests run first in every world: every clause of the statement
+/// on its own, the accepted counterparts, and mixed requests (one good and
+/// one bad entry) for the all-or-nothing part.
+fn boundary(b: &Built, csrs: &[Csr]) -> Vec<Req> {
+    let v4 = b.held.blocks.iter().find(|p| !p.v6).cloned();
+    let v6 = b.held.blocks.iter().find(|p| p.v6).cloned();
+    let held_asn = b.held.asns.iter().next().cloned();
+    let near_asn = b.near_asns[0];
+    let near = b.near_blocks[0];
+    let corrupt = csrs.iter().position(|c| !c.valid).unwrap_or(0);
+    let e = |p: Pfx, ml: Option<u8>, asn: u32, c: Option<&str>| RoaEntry {
+        pfx: p.to_string(), ml, asn, comment: c.map(|s| s.to_string()),
+    };
+    let roa = |add: Vec<RoaEntry>, remove: Vec<RoaEntry>| Req::Roa {
+        add, remove
+    };
+    let mut fixed = Rng::new(7);
+    let mut out = vec![roa(vec![], vec![])];
+    // a block to work in: held if there is one
+    let base = v4.unwrap_or(near);
+    let p = base.sub(8, &mut fixed);
+    let q = base.sub(8, &mut fixed);
+    let asn = held_asn.unwrap_or(65000);
+    out.extend([
+        roa(vec![e(p, None, asn, None)], vec![]),
+        // the same with explicit max length: duplicate
+        roa(vec![e(p, Some(p.len), asn, None)], vec![]),
+        // comment-only change
+        roa(vec![e(p, None, asn, Some("a"))], vec![]),
+        // changed again and then the same once more in one delta
+        roa(vec![e(p, None, asn, Some("b")), e(p, Some(p.len), asn, Some("b"))],
+            vec![]),
+        // twice in one delta
+        roa(vec![e(q, Some(q.len + 1), asn, None),
+                 e(q, Some(q.len + 1), asn, None)], vec![]),
+        // twice in one delta with different comments
+        roa(vec![e(q, Some(q.len + 1), asn, None),
+                 e(q, Some(q.len + 1), asn, Some("a"))], vec![]),
+        roa(vec![e(near.sub(4, &mut fixed), None, asn, None)], vec![]),
+        roa(vec![e(p, Some(p.len - 1), asn, None)], vec![]),
+        roa(vec![e(p, Some(p.bits() + 1), asn, None)], vec![]),
+        roa(vec![e(p, Some(p.bits()), 0, None)], vec![]),
+        roa(vec![], vec![e(q, Some(q.len + 2), asn, None)]),
+        // removal (implicit notation) and re-addition in one delta
+        roa(vec![e(p, Some(p.len), asn, Some("a"))],
+            vec![e(p, None, asn, None)]),
+        // good and bad entry together
+        roa(vec![e(base.sub(6, &mut fixed), None, asn, None),
+                 e(near.sub(2, &mut fixed), None, asn, None)], vec![]),
+        roa(vec![e(base.sub(6, &mut fixed), None, asn, None)],
+            vec![e(q, Some(q.len + 3), asn, None)]),
+    ]);
+    if let Some(s) = base.sup() {
+        out.push(roa(vec![e(s, None, asn, None)], vec![]));
+    }
+    if let Some(b6) = v6 {
+        out.push(roa(vec![e(b6.sub(16, &mut fixed), Some(128), asn, None)],
+                     vec![]));
+        out.push(roa(vec![e(b6.sub(4, &mut fixed), Some(129), asn, None)],
+                     vec![]));
+    }
+    if let Some(b4) = v4 {
+        // the bits of a held IPv4 block, read as IPv6
+        out.push(roa(vec![e(Pfx::new(true, b4.addr << 96, b4.len), None, asn,
+                            None)], vec![]));
+    }
+    let c = asn;
+    out.extend([
+        Req::Aspa { add: vec![(c, vec![65010, 65011])], remove: vec![] },
+        Req::Aspa { add: vec![(c, vec![])], remove: vec![] },
+        Req::Aspa { add: vec![(c, vec![65010, 65012, 65010])], remove: vec![] },
+        Req::Aspa { add: vec![(c, vec![65010, c])], remove: vec![] },
+        Req::Aspa { add: vec![(near_asn, vec![65010])], remove: vec![] },
+        Req::Aspa { add: vec![], remove: vec![near_asn] },
+        // replace
+        Req::Aspa { add: vec![(c, vec![65011, 65012])], remove: vec![] },
+        // removal and re-addition in one request
+        Req::Aspa { add: vec![(c, vec![65012, 65010])], remove: vec![c] },
+        // good and bad together
+        Req::Aspa {
+            add: vec![(c, vec![65001]), (near_asn, vec![65001])],
+            remove: vec![],
+        },
+        Req::AspaProviders { customer: c, added: vec![c], removed: vec![] },
+        Req::AspaProviders {
+            customer: near_asn, added: vec![65010], removed: vec![]
+        },
+        Req::AspaProviders { customer: c, added: vec![64999], removed: vec![] },
+        Req::AspaProviders { customer: c, added: vec![64999], removed: vec![] },
+        Req::AspaProviders {
+            customer: c, added: vec![],
+            removed: vec![65001, 65010, 65011, 65012, 64999],
+        },
+        Req::Bgpsec { add: vec![(c, 0)], remove: vec![] },
+        Req::Bgpsec { add: vec![(c, 0)], remove: vec![] },
+        Req::Bgpsec { add: vec![(near_asn, 1)], remove: vec![] },
+        Req::Bgpsec { add: vec![(c, corrupt)], remove: vec![] },
+        Req::Bgpsec { add: vec![], remove: vec![(c, 2)] },
+        Req::Bgpsec { add: vec![(c, 0)], remove: vec![(c, 0)] },
+        Req::Bgpsec { add: vec![(c, 1), (c, corrupt)], remove: vec![] },
+        Req::Bgpsec { add: vec![(c, 1), (c, 2)], remove: vec![(c, 0)] },
+    ]);
+    let kid_pfx = vec![base.sub(4, &mut fixed).to_string()];
+    out.extend([
+        Req::ChildRemove { child: "k2".into() },
+        Req::ChildAdd { child: "k2".into(), asns: vec![], pfx: vec![] },
+        Req::ChildAdd {
+            child: "k2".into(), asns: vec![],
+            pfx: vec![near.sub(4, &mut fixed).to_string()],
+        },
+        Req::ChildAdd {
+            child: "k2".into(), asns: vec![near_asn], pfx: kid_pfx.clone(),
+        },
+        Req::ChildAdd {
+            child: "k2".into(), asns: vec![], pfx: kid_pfx.clone(),
+        },
+        Req::ChildAdd {
+            child: "k2".into(), asns: vec![c], pfx: vec![],
+        },
+        Req::ChildUpdate {
+            child: "k2".into(), asns: vec![c], pfx: kid_pfx.clone(),
+        },
+        Req::ChildUpdate {
+            child: "k2".into(), asns: vec![c, near_asn], pfx: kid_pfx.clone(),
+        },
+        Req::ChildUpdate {
+            child: "k2".into(), asns: vec![c], pfx: kid_pfx.clone(),
+        },
+        Req::ChildUpdate { child: "k2".into(), asns: vec![], pfx: vec![] },
+    ]);
+    out
 }
 
 //------------ Judging one request -------------------------------------------
@@ -1422,7 +1584,7 @@ impl Run<'_> {
             }
             Req::ChildAdd { child, .. } | Req::ChildUpdate { child, .. } => {
                 if view.model.children.get(child)
-                    .map(|r| r.is_empty()).unwrap_or(false)
+                    .map(|r| r.0.is_empty()).unwrap_or(false)
                     || !before.children.contains_key(child)
                 {
                     fixes.push(Req::ChildRemove { child: child.clone() });
@@ -1450,7 +1612,9 @@ impl Run<'_> {
     fn judge(&mut self, req: &Req) -> bool {
         let kind = req.kind();
         let class = self.b.class;
-        let cx = Ctx { held: &self.b.held, csrs: self.csrs };
+        let cx = Ctx {
+            held: &self.b.held, per_class: &self.b.per_class, csrs: self.csrs,
+        };
         let exp = expect(&self.model, &cx, req);
         let (before, ver_before) = digest(&self.b.w);
         let pending_before: Vec<String> = self.b.w.pending().into_iter()
@@ -1501,14 +1665,21 @@ impl Run<'_> {
             }));
         }
 
+        let Some(view) = observe(&self.b.w) else {
+            self.r.inconclusive("subject CA not observable after a request");
+            return false
+        };
+
         // 1. the verdict
         let mut verdict_wrong = false;
         if exp.judge_verdict && accepted != exp.clauses.is_empty() {
             verdict_wrong = true;
+            let stale = if exp.tags.contains(STALE) { format!(":{STALE}") }
+                else { String::new() };
             let sig = if accepted {
-                format!("{kind}:accepted-expected-refused:{clause_str}")
+                format!("{kind}:accepted-expected-refused:{clause_str}{stale}")
             } else {
-                format!("{kind}:refused-expected-accepted")
+                format!("{kind}:refused-expected-accepted{stale}")
             };
             let detail = format!(
                 "class {class}/{}: {} but the statement {}; krill said: {:?}; \
@@ -1521,19 +1692,23 @@ impl Run<'_> {
                 out.as_ref().err(),
                 serde_json::to_string(req).unwrap(),
             );
+            let new_roas: Vec<String> = view.roa_has_obj.iter()
+                .filter(|(k, _)| !self.model.roas.contains_key(*k))
+                .map(|(k, has)| format!(
+                    "{}-{} => {}: {}", k.0, k.1, k.2,
+                    if *has { "ROA object issued" } else { "no object" }
+                )).collect();
             let wit = self.witness(req, json!({
                 "accepted": accepted, "error": out.as_ref().err(),
                 "expected_clauses": clause_str,
+                "view_after": view.model.to_json(),
+                "new_authorisations": new_roas,
             }));
             self.r.violation(&sig, &detail, wit);
         }
         if !exp.judge_verdict { self.r.count("verdict_not_asserted", 1) }
 
         // 2. the state afterwards
-        let Some(view) = observe(&self.b.w) else {
-            self.r.inconclusive("subject CA not observable after a request");
-            return false
-        };
         if !accepted {
             let (after, ver_after) = digest(&self.b.w);
             if after != before {
@@ -1663,7 +1838,7 @@ impl Run<'_> {
         }
         if damaged && !self.repair(req, &model_before) { return false }
         // an accepted request must not change what the CA holds
-        if view.resources != self.b.held.resource_set() {
+        if Res(view.resources.clone()) != Res(self.b.held.resource_set()) {
             self.r.inconclusive(format!(
                 "class {class}: held resources moved to '{}'", view.resources
             ));
@@ -1684,7 +1859,9 @@ impl Run<'_> {
             }
             // pumping may let the CA learn of changes; the class must stay
             if let Some(v) = observe(&self.b.w) {
-                if v.resources != self.b.held.resource_set() {
+                if Res(v.resources.clone())
+                    != Res(self.b.held.resource_set())
+                {
                     self.r.inconclusive(format!(
                         "class {class}: held resources moved to '{}' by \
                          background work", v.resources
@@ -1755,7 +1932,12 @@ fn run_world(
         }
         None => {
             let mut n = 0u64;
-            while run.r.within_budget()
+            let mut usable = true;
+            for req in boundary(&run.b, csrs) {
+                run.r.count("boundary_requests", 1);
+                if !run.judge(&req) { usable = false; break }
+            }
+            while usable && run.r.within_budget()
                 && run.r.elapsed_s() - start < slice_s && n < cap
             {
                 let req = {
@@ -1832,8 +2014,10 @@ fn main() {
     let slice = if args.thorough() { 150.0 } else { 1e9 };
     let mut round = 0u64;
     loop {
-        let class = CLASSES[((args.shard + round) % CLASSES.len() as u64)
-                            as usize];
+        let n = CLASSES.len() as u64;
+        let class = CLASSES[
+            ((args.shard + round * (1 + args.shard / n)) % n) as usize
+        ];
         // the variants of a class are walked through by shard and round
         let variant = args.shard / CLASSES.len() as u64 + round
             + args.seed % 3;
